@@ -87,3 +87,20 @@ pub fn vlayer_initialize<S: VStream>(s: &mut S) -> (r: Result<(), Error>)
     requires old(s).wf(),
     ensures final(s).wf(), final(s).data() == old(s).data(),
 { unimplemented!() }
+
+// bincode::options()[...].deserialize_from(src) without a Take: reads what the value needs, at most `limit` bytes  [rewrite R12]
+#[verifier::external_body]
+pub fn vbincode_deserialize<T: VSerde, S: VRead>(s: &mut S, limit: Option<u64>, fixint: bool) -> (r: Result<T, ()>)
+    requires old(s).wf(),
+        limit is Some && limit->Some_0 <= 512 * 1024 * 1024,
+        fixint,
+    ensures final(s).wf(), final(s).data() == old(s).data(),
+        old(s).pos() <= final(s).pos() <= old(s).pos() + smin(limit->Some_0 as int, srem(old(s)) as int),
+        r is Ok ==> r->Ok_0.fits(limit->Some_0) && old(s).data().subrange(old(s).pos() as int, final(s).pos() as int) == r->Ok_0.enc(),
+{ unimplemented!() }
+
+/// Vec<u8> == &[u8; N] comparison
+#[verifier::external_body]
+pub fn vbytes_eq<const N: usize>(a: &Vec<u8>, b: &[u8; N]) -> (r: bool)
+    ensures r == (a@ == b@),
+{ a == b }
